@@ -74,7 +74,8 @@ def path_for(tpl, k):
         '{k}': 'key%d' % k, '{d}': 'det%d' % k, '{ver:int}': str(1 + k),
         '{when:dt("%Y-%m-%d")}': ['2020-01-02', 'not-a-date', '2021-13-45'][k % 3],
         '{x:float}': ['1.5', 'nan-ish', '2e3'][k % 3],
-        '{x:flaky}': 'fl%d' % k, '{file}': ['a.txt', 'b.bin', 'c.dat'][k % 3],
+        '{x:flaky}': 'fl%d' % k,
+        '{file}': ['a.txt', 'b.bin', 'c.dat', 'missing-1.txt', 'missing-2.txt'][k % 5],
     }
     for a, b in rep.items():
         t = t.replace(a, b)
@@ -110,13 +111,13 @@ def gen_plan(ch, deep=False):
         return {'routes': routes, 'n_mw': n_mw, 'reqs': reqs,
                 'independent_mw': bool(ch.draw(2, 'independent_mw')), 'caches_full': False}
     if scenario == 6:
-        # three overlapping downloads of different static files
+        # three overlapping downloads of static files (some of them the fallback document)
         si = [i for i, t in enumerate(TEMPLATES) if t[1] == 'static'][0]
         if si not in routes:
             routes.append(si)
             routes.sort()
         for k in range(3):
-            reqs.append({'route': si, 'path': path_for(TEMPLATES[si][0], ch.draw(3, 'file')), 'method': 'GET',
+            reqs.append({'route': si, 'path': path_for(TEMPLATES[si][0], ch.draw(5, 'file')), 'method': 'GET',
                          'tag': 'tag%d' % k, 'ctype': None, 'accept': ACCEPTS[0], 'query': '', 'body': None})
         return {'routes': routes, 'n_mw': n_mw, 'reqs': reqs,
                 'independent_mw': bool(ch.draw(2, 'independent_mw')), 'caches_full': False}
@@ -308,6 +309,9 @@ def build_app(plan, asgi, record, pause=None):
         class MW2(object):
             async def process_resource(self, req, resp, resource, params):
                 req.context.tag2 = 'r:' + req.path
+                # middleware may add to the params of *its* request (documented); some requests do
+                if req.get_header('X-Tag') != 'tag1':
+                    params['injected_by'] = req.get_header('X-Tag')
                 await pause()
 
             async def process_response(self, req, resp, resource, ok):
@@ -323,6 +327,8 @@ def build_app(plan, asgi, record, pause=None):
         class MW2(object):
             def process_resource(self, req, resp, resource, params):
                 req.context.tag2 = 'r:' + req.path
+                if req.get_header('X-Tag') != 'tag1':
+                    params['injected_by'] = req.get_header('X-Tag')
 
             def process_response(self, req, resp, resource, ok):
                 resp.set_header('X-Ok', '%s:%s' % (ok, getattr(req.context, 'tag2', None)))
@@ -383,7 +389,8 @@ def build_app(plan, asgi, record, pause=None):
     for ridx in plan['routes']:
         tpl, kind = TEMPLATES[ridx]
         if kind == 'static':
-            app.add_static_route('/static', static_dir())
+            # names that do not exist are answered with the fallback document
+            app.add_static_route('/static', static_dir(), fallback_filename='a.txt')
             continue
         if asgi:
             class Res(object):
